@@ -276,8 +276,45 @@ pub fn run_simcli(bytes: &[u8], route: &Route, opts: &Opts, env: &SimEnv, extra_
             let _ = si.write_all(&data);
         });
     }
-    let output = child.wait_with_output().expect("wait");
+    // wall-clock watchdog against a run-away process (ordinary runs take milliseconds)
+    let limit = std::time::Duration::from_secs(std::env::var("VERIF_WATCHDOG_S").ok().and_then(|s| s.parse().ok()).unwrap_or(600));
+    let t0 = std::time::Instant::now();
+    let mut so = child.stdout.take().unwrap();
+    let mut se = child.stderr.take().unwrap();
+    let ho = std::thread::spawn(move || {
+        let mut b = Vec::new();
+        let _ = so.read_to_end(&mut b);
+        b
+    });
+    let he = std::thread::spawn(move || {
+        let mut b = Vec::new();
+        let _ = se.read_to_end(&mut b);
+        b
+    });
+    let mut timed_out = false;
+    let status = loop {
+        match child.try_wait().expect("wait") {
+            Some(st) => break st,
+            None => {
+                if t0.elapsed() > limit {
+                    timed_out = true;
+                    let _ = child.kill();
+                    break child.wait().expect("wait");
+                }
+                std::thread::sleep(std::time::Duration::from_millis(if t0.elapsed().as_millis() < 50 { 1 } else { 10 }));
+            }
+        }
+    };
+    struct Out {
+        status: std::process::ExitStatus,
+        stdout: Vec<u8>,
+        stderr: Vec<u8>,
+    }
+    let output = Out { status, stdout: ho.join().unwrap_or_default(), stderr: he.join().unwrap_or_default() };
     let mut stderr = String::from_utf8_lossy(&output.stderr).into_owned();
+    if timed_out {
+        stderr.push_str("\ncfr-verif: watchdog: the process did not finish and was killed");
+    }
     if stderr.len() > 4000 {
         stderr.truncate(4000);
     }
@@ -290,7 +327,7 @@ pub fn run_simcli(bytes: &[u8], route: &Route, opts: &Opts, env: &SimEnv, extra_
         stale_out: route.out_file && route.stale_out,
         stale_out_left_untouched: route.out_file && route.stale_out && std::fs::read(&out_path).ok().map(|b| b == STALE_OUTPUT.as_bytes()).unwrap_or(false),
         report: std::fs::read_to_string(&report).ok().and_then(|s| serde_json::from_str(&s).ok()),
-        timed_out: false,
+        timed_out,
     }
 }
 
